@@ -1,5 +1,7 @@
 import GoomVerif.Drv.Util
 import GoomVerif.Model.MethodH
+import GoomVerif.Model.MethodG
+import GoomVerif.Model.InnerFn
 /-! Driver for C06.
 
     `c06.hist <step>.. | <entry>.. | <sym>..`
@@ -28,9 +30,12 @@ def splitTilde (s : String) : List String := s.splitOn "~"
 def parseLook : List String → Option Look
   | "SM" :: pkg :: ty :: p :: m :: eid :: rest =>
     if (p = "0" ∨ p = "1") ∧ eid.toNat?.isSome ∧ rest.length ≤ 1 then some (.structMethod ⟨pkg.toList, ty.toList, p = "1"⟩ m.toList) else none
+  | "SP" :: pkg :: ty :: p :: m :: eid :: rest =>   -- `Struct(&T{}).Method(m)` for a value method of T (p = 1)
+    if p = "1" ∧ eid.toNat?.isSome ∧ rest.length ≤ 1 then some (.structMethod ⟨pkg.toList, ty.toList, true⟩ m.toList) else none
   | "SX" :: pkg :: ty :: p :: m :: eid :: rest =>
     if (p = "0" ∨ p = "1") ∧ eid.toNat?.isSome ∧ rest.length ≤ 1 then some (.structExport ⟨pkg.toList, ty.toList, p = "1"⟩ m.toList) else none
   | ["ES", pkg, raw, m, eid] => if eid.toNat?.isSome then some (.exportStruct pkg.toList raw.toList m.toList) else none
+  | ["EF", pkg, fn, eid] => if eid.toNat?.isSome then some (.exportFunc pkg.toList fn.toList) else none
   | ["EC", pkg, raw, m, eid] => if eid.toNat?.isSome then some (.exportStruct pkg.toList raw.toList m.toList) else none
   | _ => none
 
@@ -50,6 +55,7 @@ def parseStep (t : String) : Option MethodH.Step :=
   | "L" :: h :: rest => do let h ← h.toNat?; let l ← parseLook rest; pure (.look h l)
   | ["A", h] => do let h ← h.toNat?; pure (.apply h)
   | ["C", h] => do let h ← h.toNat?; pure (.cancel h)
+  | ["O", h] => do let h ← h.toNat?; pure (.origin h)
   | ["T", h, v] => do let h ← h.toNat?; let v ← v.toInt?; pure (.ret h v)
   | ["S", h, v1, v2] => do let h ← h.toNat?; let v1 ← v1.toInt?; let v2 ← v2.toInt?; pure (.rets h v1 v2)
   | ["W", h, f, v] => do let h ← h.toNat?; let f ← parseFlag f; let v ← v.toInt?; pure (.whenRet h f v)
@@ -104,13 +110,65 @@ def snapshot (syms : List Str) (all : List Entry) (hot : List (Option Str)) :
       match r0.2, r1.2, r2.2 with
       | .orig, .orig, .orig => none
       | .cb k0, .cb k1, .cb k2 =>
-        if k0 = k1 ∧ k1 = k2 then some s!"{i}:{k0}:r+:{if e.shape.isEmpty || e.np == 0 then "a+" else "a-"}"
+        -- `r+:a+`: receiver and arguments arrive exactly (theorem C06.receiver_and_args_exact; since fix 79126f8 also for shape bodies)
+        if k0 = k1 ∧ k1 = k2 then some s!"{i}:{k0}:r+:a+"
         else some s!"{i}:k{k0}/k{k1}/k{k2}"
       | a, b, c => some s!"{i}:{showCall a}/{showCall b}/{showCall c}"
     snapshot syms all hot r2.1 (i + 1) rest (match tok with | some t => t :: acc | none => acc)
 
+def enumFrom {α : Type} : Nat → List α → List (Nat × α)
+  | _, [] => []
+  | n, a :: as => (n, a) :: enumFrom (n + 1) as
+
+def parseGStep (t : String) : Option MethodG.GStep :=
+  match splitTilde t with
+  | ["GN", h, pkg, ty, p, m, eid] =>
+    if (p = "0" ∨ p = "1") ∧ eid.toNat?.isSome then h.toNat?.map (fun h => .gnew h ⟨pkg.toList, ty.toList, p = "1"⟩ m.toList) else none
+  | ["GA", h] => h.toNat?.map .gapply
+  | ["GU", h] => h.toNat?.map .gunpatch
+  | _ => none
+
+/-- `c06.guard <gstep>.. | <entry>.. | <sym>..` with gstep := `GN~h~pkg~T~ptr~m~eid` | `GA~h` | `GU~h`
+    (patch.InstanceMethod(type, m, cb k) / guard.Apply() / guard.UnpatchWithLock()); same answer format -/
+def handleGuard (rest0 : List String) : String :=
+  match splitBar rest0 with
+  | [stoks, etoks, symtoks] =>
+    match stoks.mapM parseGStep, etoks.mapM parseEntry with
+    | some steps, some entriesB =>
+      let entries := entriesB.map (·.1)
+      let syms : List Str := symtoks.map String.toList
+      let r := MethodG.grun syms entries MethodG.GState.init 0 steps
+      let beh (p : List (Nat × Nat)) (eb : Entry × Option Nat) : Option Nat :=
+        match Method.behavOf syms p eb.1, eb.2.bind (fun j => entries[j]?) with
+        | none, some b => Method.behavOf syms p b       -- promoted method: the wrapper calls the embedded type's method
+        | x, _ => x
+      let hits := (enumFrom 0 entriesB).filterMap (fun (i, eb) =>
+        (beh r.1.patched eb).map (fun k => s!"{i}:{k}:r+:a+"))
+      let hs := steps.filterMap (fun st => match st with | .gnew h _ _ => some h | _ => none)
+      let after := hs.foldl (fun s h => (MethodG.gstep syms entries s steps.length (.gunpatch h)).1) r.1
+      let clean := entriesB.all (fun eb => (beh after.patched eb).isNone)
+      let rs := (String.intercalate "," (r.2.map showRes)).replace "@" "github.com/tencent/goom/internal/zzverif/c06"
+      s!"r={rs} hit={String.intercalate "," hits} after={if clean then "clean" else "dirty"}"
+    | _, _ => "bad-op"
+  | _ => "bad-op"
+
+/-- `c06.inner n<len> | c<rel> | i | p ..` → `inner=<offset>` | `inner=none` -/
+def handleInner (toks : List String) : String :=
+  let parse (t : String) : Option InnerFn.Ins :=
+    if t = "i" then some .int3 else if t = "p" then some .prologue
+    else match t.toList with
+      | 'n' :: r => (String.ofList r).toNat?.bind (fun n => if 1 ≤ n ∧ n ≤ 8 then some (.fill n) else none)
+      | 'c' :: r => (String.ofList r).toInt?.map .call
+      | _ => none
+  match toks.mapM parse with
+  | some (.prologue :: _) => "bad-op"
+  | some code => (match InnerFn.inner code with | some o => s!"inner={o}" | none => "inner=none")
+  | none => "bad-op"
+
 def handle (toks : List String) : Option String :=
   match toks with
+  | "c06.inner" :: rest => some (handleInner rest)
+  | "c06.guard" :: rest0 => some (handleGuard rest0)
   | "c06.hist" :: rest0 =>
     -- `@` abbreviates the common import-path prefix of the corpus packages on the wire.  The model only compares and
     -- concatenates names, and every name of the line is abbreviated the same way, so it runs on the abbreviated text; the
